@@ -272,6 +272,16 @@ def rule_norms(rep, pdb):
             ok = ok and root
             det += "; outer root powf(sum, 1/p)=%s" % root
         rep.add("norm-orientation/norm_p", "norm_p = powf(sum over all entries of powf(|a_ij|, p), 1/p)", ok, fn["body"], det, where=loc(fn["body"]))
+        # p = inf: the documented limit (the max norm) is not what the formula gives (powf(x, 1/inf) = x^0 = 1 for every matrix)
+        from .common import return_paths
+        rule = "norm_p(inf) is the entrywise max norm, as its documentation states: the p = inf case is returned as norm_max() before the power-sum formula (whose value there is always 1)"
+        special = []
+        for fs_, val_, node_ in return_paths(ctx):
+            inf_test = any(f_[0] == "bool" and f_[2] and f_[1][0] == "call" and str(f_[1][1]).endswith("::is_infinite") and f_[1][2] == P(1) for f_ in fs_) or \
+                any(f_[0] == "cmp" and f_[1] == "==" and P(1) in (f_[2], f_[3]) and "INFINITY" in repr(f_) for f_ in fs_)
+            if inf_test:
+                special.append(val_ == ("call", "%s::norm_max" % M64, P(0)))
+        rep.add("norm-orientation/norm_p/inf", rule, bool(special) and all(special), fn["body"], "p = inf return paths: %s" % special, where=loc(fn["body"]))
 
 
 def _anc(n):
